@@ -41,3 +41,67 @@ open Py
   simp [Py.min2, Py.asInt, bind, Except.bind, throw, throwThe, MonadExceptOf.throw, pure, Except.pure]
 
 end Adb
+
+namespace Adb
+open Py
+
+@[simp] theorem Py.alookupS_asetS_same (k : String) (v : Py.Val) (fs : List (String × Py.Val)) :
+    Py.alookupS k (Py.asetS k v fs) = some v := by
+  induction fs with
+  | nil => simp [Py.asetS, Py.alookupS]
+  | cons kv rest ih =>
+    obtain ⟨k', v'⟩ := kv
+    by_cases h : k' = k
+    · simp [Py.asetS, Py.alookupS, h]
+    · simp [Py.asetS, Py.alookupS, h, ih]
+
+theorem Py.alookupS_asetS_other (k k' : String) (v : Py.Val) (fs : List (String × Py.Val)) (hne : k' ≠ k) :
+    Py.alookupS k' (Py.asetS k v fs) = Py.alookupS k' fs := by
+  induction fs with
+  | nil => simp [Py.asetS, Py.alookupS]; intro h; exact absurd h.symm hne
+  | cons kv rest ih =>
+    obtain ⟨k2, v2⟩ := kv
+    by_cases h : k2 = k
+    · subst h
+      have : ¬ k2 = k' := fun h => hne h.symm
+      simp [Py.asetS, Py.alookupS, this]
+    · by_cases h2 : k2 = k'
+      · subst h2
+        simp [Py.asetS, Py.alookupS, hne]
+      · simp [Py.asetS, Py.alookupS, h, h2, ih]
+
+/-- `getAttr` of an object is the lookup in its attribute list -/
+theorem Py.getAttr_obj (cls : String) (fs : List (String × Py.Val)) (k : String) (v : Py.Val) (h : Py.alookupS k fs = some v) :
+    Py.getAttr (.obj cls fs) k = .ok v := by
+  simp [Py.getAttr, h, pure, Except.pure]
+
+/-- Python's `n // 2` on a non-negative int is natural-number division -/
+theorem Py.fdiv_two (n : Nat) : Int.fdiv (n : Int) 2 = ((n / 2 : Nat) : Int) := by
+  rw [Int.fdiv_eq_ediv_of_nonneg _ (by omega)]
+  omega
+
+end Adb
+
+namespace Adb
+open Py
+
+/-! scalar operations on the value kinds the ids take (ints and `None`) -/
+@[simp] theorem Py.eqV_int_int (a b : Int) : Py.eqV (.int a) (.int b) = .ok (.bool (a == b)) := by
+  simp [Py.eqV, Py.eq, bind, Except.bind, pure, Except.pure]
+@[simp] theorem Py.eqV_int_none (a : Int) : Py.eqV (.int a) .none = .ok (.bool false) := by
+  simp [Py.eqV, Py.eq, bind, Except.bind, pure, Except.pure]
+@[simp] theorem Py.isV_none_none : Py.isV .none .none = .ok (.bool true) := by simp [Py.isV, pure, Except.pure]
+@[simp] theorem Py.isV_int_none (a : Int) : Py.isV (.int a) .none = .ok (.bool false) := by simp [Py.isV, pure, Except.pure]
+@[simp] theorem Py.inV_int_pair (a b : Int) : Py.inV (.int a) (.tuple [.int 0, .int b]) = .ok (.bool (a == 0 || a == b)) := by
+  by_cases h0 : a = 0 <;> by_cases hb : a = b <;> simp [Py.inV, Py.contains, Py.anyEq, Py.eq, bind, Except.bind, pure, Except.pure, h0, hb]
+@[simp] theorem Py.inV_int_pair_none (a : Int) : Py.inV (.int a) (.tuple [.int 0, .none]) = .ok (.bool (a == 0)) := by
+  by_cases h0 : a = 0 <;> simp [Py.inV, Py.contains, Py.anyEq, Py.eq, bind, Except.bind, pure, Except.pure, h0]
+@[simp] theorem Py.andV_bool (b : Bool) (x : Py.M Py.Val) : Py.andV (.bool b) x = if b then x else .ok (.bool false) := by
+  cases b <;> simp [Py.andV, Py.truthy, bind, Except.bind, pure, Except.pure]
+@[simp] theorem Py.orV_bool (b : Bool) (x : Py.M Py.Val) : Py.orV (.bool b) x = if b then .ok (.bool true) else x := by
+  cases b <;> simp [Py.orV, Py.truthy, bind, Except.bind, pure, Except.pure]
+@[simp] theorem Py.not_bool (b : Bool) : Py.not_ (.bool b) = .ok (.bool (!b)) := by
+  simp [Py.not_, Py.truthy, bind, Except.bind, pure, Except.pure]
+@[simp] theorem Py.truthy_bool (b : Bool) : Py.truthy (.bool b) = .ok b := by simp [Py.truthy, pure, Except.pure]
+
+end Adb
